@@ -462,6 +462,14 @@ func init() {
 			cfg.MaxLeaves = r.Range(0, 2)
 			cfg.FairSuffix = r.Bool(0.6)
 			cfg.PSubmit = 0.3
+			if r.Bool(0.35) {
+				// persistent nodes that fast-forward although their database already
+				// holds history (lagging validators that reset themselves, joiners
+				// that do so a second time)
+				mixStores(cfg, r, 0.6)
+				cfg.PJoinerBadger = 0.7
+				cfg.PReFF = 0.08
+			}
 			return cfg
 		},
 		run: clusterRun,
